@@ -22,7 +22,9 @@ W = ("a", "é", "€", "\U0001F600", " ", "\t", "\r", "\u0301", "\u3099")
 # widths as members of W, but a "same width class behaves the same" assumption is exactly what a change may break
 X = ("\ufeff", "\u2028", "\x0b", "\x85", "\x00", "\x1c",
      # the first and last code point of every UTF-8 width class (a width computed from thresholds is off by one exactly here)
-     "\x7f", "\x80", "\u07ff", "\u0800", "\uffff", "\U00010000", "\U0010ffff")
+     "\x7f", "\x80", "\u07ff", "\u0800", "\uffff", "\U00010000", "\U0010ffff",
+     # characters of the escaping layer (a fold must be allowed between a backslash and what follows)
+     "\\", ";", ",", '"')
 LIMIT = 75
 
 
